@@ -41,6 +41,27 @@ def multiUse : List String := []
 /-- attribute rows per module (5 x ai.onnx, 3 x ai.onnx.ml; only what the module itself defines) -/
 def perModule : List (String × Nat) := [("v17", 261), ("v18", 46), ("v19", 48), ("v20", 18), ("v21", 35), ("ml_v3", 103), ("ml_v4", 12), ("ml_v5", 16)]
 
+/-- every constructor parameter typed `Sequence[Var]` (variadic input) of the 8 modules: (module.constructor.parameter,
+    handed to the `Inputs` dataclass as a bare parameter) - a bare one lands in `BaseVars.__post_init__` (capture row
+    `BaseVars.variadic`); anything else (wrapped, filtered, not handed on) is listed with `false` -/
+def variadics : List (String × Bool) := [
+  ("v17.concat.inputs", true),
+  ("v17.einsum.Inputs", true),
+  ("v17.loop.v_initial", true),
+  ("v17.max.data_0", true),
+  ("v17.mean.data_0", true),
+  ("v17.min.data_0", true),
+  ("v17.scan.initial_state_and_scan_inputs", true),
+  ("v17.sequence_construct.inputs", true),
+  ("v17.sequence_map.additional_inputs", true),
+  ("v17.sum.data_0", true),
+  ("v19.loop.v_initial", true),
+  ("v19.scan.initial_state_and_scan_inputs", true),
+  ("v21.loop.v_initial", true),
+  ("v21.scan.initial_state_and_scan_inputs", true),
+  ("ml_v3.feature_vectorizer.X", true)
+]
+
 /-- live cross-check (inspect.signature + dataclass fields of the imported modules) disagreements -/
 def liveMismatches : List String := []
 
